@@ -1,0 +1,35 @@
+//go:build verif
+// +build verif
+
+package cache
+
+// Contracts for package cache, read by /verif/gvc.  Compiled only with the build tag
+// "verif"; adds no code to the package.
+
+// eqBytes(a, b): the two byte slices have the same length and contents.
+//@ spec macro eqBytes(a []byte, b []byte) bool = len(a) == len(b) && (forall k in 0..len(a): a[k] == b[k])
+
+// io.Reader.Read: reads up to len(p) bytes into the front of p and nothing else.
+//@ external func (r io.Reader) Read(p []byte) (n int, err error)
+//@   ensures 0 <= n && n <= len(p)
+//@   assigns p
+
+//@ external func (w io.Writer) Write(p []byte) (n int, err error)
+//@   ensures 0 <= n && n <= len(p)
+//@   assigns nothing
+
+//@ func (h Header) Validate(rsum, dsum, bsum []byte) (err error)
+//@   prop C13
+//@   ensures root: isnil(err) ==> eqBytes(rsum, h.RootSum)
+//@   ensures data: isnil(err) ==> eqBytes(dsum, h.DataSum)
+//@   ensures body: isnil(err) ==> eqBytes(bsum, h.BodySum)
+//@   ensures complete: eqBytes(rsum, h.RootSum) && eqBytes(dsum, h.DataSum) && eqBytes(bsum, h.BodySum) ==> isnil(err)
+//@   assigns nothing
+
+//@ func ReadHeader(r io.Reader, size int) (hd Header, err error)
+//@   prop C13
+//@   requires 0 <= size && size <= 1048576 && !isnil(r)
+//@   ensures isnil(err) ==> len(hd.RootSum) == size && len(hd.DataSum) == size && len(hd.BodySum) == size
+//@   ensures contiguous: isnil(err) ==> fresh(hd.RootSum) && refof(hd.DataSum) == refof(hd.RootSum) && refof(hd.BodySum) == refof(hd.RootSum) &&
+//@      offof(hd.RootSum) == 0 && offof(hd.DataSum) == size && offof(hd.BodySum) == 2*size
+//@   assigns nothing
